@@ -255,6 +255,7 @@ def run(prog, ctx):
     # ------------------------------------------------------------------ D7 / D8 (from round-2 seeds)
     check_knot_spacing(prog, ctx)
     check_quadrature_nodes_not_modified(prog, ctx)
+    check_integral_of_the_function_itself(prog, ctx)
 
     # ------------------------------------------------------------------ D5 / D6
     check_bspline_derivatives(prog, ctx)
@@ -510,3 +511,93 @@ def check_quadrature_nodes_not_modified(prog, ctx, rule="C10.D8"):
     if not any(i.rule == rule and i.status == "violation" for i in ctx.instances):
         ctx.ok(rule, BF + "BasisFunction::get_integral-copies", "sparseSpACE/BasisFunctions.py",
                "%d in-place updates in get_integral overrides, all on copies of the parameters" % n)
+
+
+def check_integral_of_the_function_itself(prog, ctx, rule="C10.D10"):
+    """D10: get_integral integrates the basis function that __call__ evaluates.  For every class below BasisFunction, the get_integral it
+    resolves to evaluates `self(x)` at the quadrature nodes -- or `self.A(x)` for a callable component A only if the __call__ this very
+    class resolves to is nothing but `return self.A(x)` (an inherited get_integral that evaluates a component is wrong for a subclass whose
+    __call__ modifies it)."""
+    bf = prog.cls(BF + "BasisFunction")
+    n = 0
+    for ci in prog.all_subclasses(bf, include_self=False):
+        gi = prog.lookup_method(ci, "get_integral")
+        call = prog.lookup_method(ci, "__call__")
+        if gi is None or call is None or R.is_stub_body(gi.node) or R.is_stub_body(call.node):
+            continue
+        ctx.touch(gi)
+        ctx.touch(call)
+        evals = []
+
+        def collect(fn, denotes, depth):
+            """denotes: local name -> None (the basis object itself) | attribute name (a component of it) | ("cls", FuncInfo) """
+            for x in walk_local(fn.node):
+                if not isinstance(x, ast.Call):
+                    continue
+                f = x.func
+                if isinstance(f, ast.Name) and f.id in denotes:
+                    evals.append((x, denotes[f.id]))
+                    continue
+                if isinstance(f, ast.Attribute) and isinstance(f.value, ast.Name) and f.value.id in denotes and denotes[f.value.id] is None:
+                    if f.attr == "__call__":
+                        evals.append((x, None))
+                        continue
+                    if prog.lookup_method(ci, f.attr) is None:
+                        evals.append((x, f.attr))
+                        continue
+                if isinstance(f, ast.Attribute) and f.attr == "__call__" and x.args and isinstance(x.args[0], ast.Name) and denotes.get(x.args[0].id, 0) is None:
+                    # explicit class call  Base.__call__(self, x)
+                    k = prog.resolve_class_expr(fn.module.name, f.value, fn.cls)
+                    tgt = prog.lookup_method(k, "__call__") if k is not None else None
+                    evals.append((x, None if tgt is call else "<%s.__call__>" % (src(f.value))))
+                    continue
+                # the object (or a component) handed to a package function / method that evaluates it
+                if depth <= 0:
+                    continue
+                passed = {}
+                for pos, a_ in enumerate(x.args):
+                    if isinstance(a_, ast.Name) and a_.id in denotes:
+                        passed[pos] = denotes[a_.id]
+                    elif isinstance(a_, ast.Attribute) and isinstance(a_.value, ast.Name) and denotes.get(a_.value.id, 0) is None \
+                            and prog.lookup_method(ci, a_.attr) is None:
+                        passed[pos] = a_.attr
+                if not passed:
+                    continue
+                tgts = []
+                if isinstance(f, ast.Name):
+                    r_ = prog.resolve_name(fn.module.name, f.id)
+                    if r_ and r_[0] == "func" and r_[1] in prog.functions:
+                        tgts = [(prog.functions[r_[1]], 0)]
+                elif isinstance(f, ast.Attribute) and isinstance(f.value, ast.Name) and denotes.get(f.value.id, 0) is None:
+                    t_ = prog.lookup_method(ci, f.attr)
+                    if t_ is not None:
+                        tgts = [(t_, 0 if t_.is_static else 1)]
+                for t_, off in tgts:
+                    ps = list(t_.params)
+                    d2 = {}
+                    if off == 1 and t_.self_name:
+                        d2[t_.self_name] = None
+                    for pos, what in passed.items():
+                        if pos + off < len(ps):
+                            d2[ps[pos + off]] = what
+                    collect(t_, d2, depth - 1)
+        collect(gi, {gi.self_name: None}, 2)
+        if not evals:
+            continue
+        n += 1
+        # the component __call__ delegates to, if it is a pure delegate
+        body = [st for st in call.node.body if not (isinstance(st, ast.Expr) and isinstance(st.value, ast.Constant))]
+        delegate = None
+        if len(body) == 1 and isinstance(body[0], ast.Return) and isinstance(body[0].value, ast.Call):
+            cv = body[0].value
+            xs = [p_ for p_ in call.params if p_ != call.self_name]
+            if isinstance(cv.func, ast.Attribute) and R.attr_chain(cv.func.value) == [call.self_name] and len(cv.args) == 1 and not cv.keywords \
+                    and isinstance(cv.args[0], ast.Name) and xs and cv.args[0].id == xs[0]:
+                delegate = cv.func.attr
+        bad = [(x, a) for (x, a) in evals if a is not None and a != delegate]
+        ctx.check(not bad, rule, "%s::integrates-its-own-values" % ci.qual, gi.loc(bad[0][0]) if bad else gi.loc(),
+                  "%s.get_integral evaluates the function %s.__call__ defines" % (gi.cls.name, call.cls.name),
+                  "the get_integral that %s resolves to (%s) evaluates the component `self.%s(..)` at the quadrature nodes, but %s.__call__ is not "
+                  "just `return self.%s(x)`: the integral belongs to a different function than the one the class evaluates"
+                  % (ci.name, gi.qual, bad[0][1] if bad else "", call.cls.name, bad[0][1] if bad else ""))
+    ctx.floor(rule, n, 4, "basis classes whose get_integral evaluates the function at quadrature nodes")
